@@ -73,6 +73,9 @@ fn main() {
         "C14" => vlib::c14::run(&mut ctx),
         "C15" => vlib::c15::run(&mut ctx),
         "C20" => vlib::c20::run(&mut ctx),
+        "C16" => vlib::c16::run(&mut ctx),
+        "C17" => vlib::c17::run(&mut ctx),
+        "C18" => vlib::c18::run(&mut ctx),
         "C13" => vlib::c13::run(&mut ctx),
         _ => {
             eprintln!("unknown property {}", id);
